@@ -171,7 +171,9 @@ func bytesCore(ops *typeOps) {
 	vrt.Phase("")
 	var d refDec
 	rn, want, rok := refDecodeStruct(ops.St, b, dst, &d, 1<<20)
-	vrt.Check((err == nil) == rok, "C05 DecodeObject succeeds exactly when the input begins with a well-formed message")
+	if !d.OkOpen {
+		vrt.Check((err == nil) == rok, "C05 DecodeObject succeeds exactly when the input begins with a well-formed message")
+	}
 	if rok && err == nil {
 		vrt.Check(n == rn, "C03 returns the number of bytes up to and including the top-level STOP")
 		if !d.ValueOpen {
@@ -549,5 +551,68 @@ func dec2Core(a, b *typeOps) {
 	a.Walk(w1, wk)
 	wk.buf = buf2
 	b.Walk(w2, wk)
+	vrt.Reach("end")
+}
+
+// mutmsgCore (C05): every truncation and every single-byte / 32-bit-word corruption of a well-formed message
+// (concrete structure, symbolic contents): DecodeObject must not panic or fault, must succeed exactly when the
+// reference decoder finds a well-formed message, and must not request memory out of proportion.
+func mutmsgCore(w, t *typeOps) {
+	boundParams()
+	vrt.SetOwner("user")
+	pm := w.NewZero()
+	if vrt.ParamOr("full", 1) == 1 {
+		fixedShape = 2
+		w.Fill(pm, "m")
+		fixedShape = -1
+	} else {
+		w.Fill(pm, "m")
+	}
+	encLenPos = nil
+	msg := refEncodeStruct(w.St, w.ToRef(pm), nil)
+	lenPos := encLenPos
+	vrt.SetOwner("buf")
+	buf := append([]byte{}, msg...)
+	switch vrt.Param("mut") {
+	case 0: // truncation: every proper prefix
+		buf = buf[:vrt.Choice("cut", len(buf))]
+		vrt.Reach("cut")
+	case 1: // one byte replaced by an arbitrary byte
+		pos := vrt.Choice("pos", len(buf))
+		buf[pos] = vrt.U8("byte")
+		vrt.Reach("byte")
+	case 2: // a length / count field replaced by an arbitrary 32-bit value (negative, huge, off by one, ...)
+		if len(lenPos) == 0 {
+			vrt.Assume(false)
+		}
+		pos := lenPos[vrt.Choice("lenfield", len(lenPos))]
+		v := vrt.U32("word")
+		buf[pos], buf[pos+1], buf[pos+2], buf[pos+3] = byte(v>>24), byte(v>>16), byte(v>>8), byte(v)
+		vrt.Reach("word")
+	}
+	vrt.Observe("in", buf)
+	vrt.SetOwner("user")
+	pw := t.New()
+	dst := t.ToRef(pw)
+	vrt.Freeze("buf", true)
+	vrt.SetOwner("dec")
+	vrt.Phase("decode")
+	vrt.ResetAllocBytes()
+	n, err := DecodeObject(buf, pw)
+	alloc := vrt.AllocBytes()
+	vrt.Phase("")
+	var d refDec
+	rn, want, rok := refDecodeStruct(t.St, buf, dst, &d, 1<<20)
+	if !d.OkOpen {
+		vrt.Check((err == nil) == rok, "C05 DecodeObject succeeds exactly when the input begins with a well-formed message")
+	}
+	if rok && err == nil {
+		vrt.Check(n == rn, "C03 returns the number of bytes up to and including the top-level STOP")
+		if !d.ValueOpen {
+			vrt.Check(refEqualStruct(t.St, want, t.ToRef(pw)), "C03 decoded value equals the reference decoder's")
+		}
+	}
+	vrt.Check(alloc <= 4096+256*uint64(len(buf)), "C05 memory requested is proportional to the input length")
+	vrt.Freeze("buf", false)
 	vrt.Reach("end")
 }
